@@ -70,13 +70,13 @@ theorem eqv_runsEq (c : Cfg) {x y : Engine} (hr : RunsEq x.runs y.runs) (h1 : x.
     have := neighbors_runsEq hr x n rel
     have e1 : ({ x with runs := x.runs } : Engine).neighbors n rel = x.neighbors n rel := rfl
     have e2 : ({ x with runs := y.runs } : Engine).neighbors n rel = y.neighbors n rel := by
-      unfold Engine.neighbors; rw [h1]
+      rw [neighbors_eq]; unfold Engine.neighborsFlushed; rw [h1]
     rw [e1, e2] at this; exact this
   · intro n rel
     have := incoming_runsEq c hr x n rel
     have e1 : ({ x with runs := x.runs } : Engine).incoming c n rel = x.incoming c n rel := rfl
     have e2 : ({ x with runs := y.runs } : Engine).incoming c n rel = y.incoming c n rel := by
-      unfold Engine.incoming; rw [h1]
+      rw [incoming_eq]; unfold Engine.incomingFlushed; rw [h1]
     rw [e1, e2] at this; exact this
   · intro n k; unfold Engine.nodeProp; rw [RunEq.npropRuns hr, visibleStore_congr h2 h3 h4]
   · intro e k; unfold Engine.edgeProp; rw [RunEq.epropRuns hr, visibleStore_congr h2 h3 h4]
